@@ -13,6 +13,9 @@ def run(ctx):
     ctx.rule('R-C06d', 'a task is linked into the running batch only on the edge where its round stamp differs from the '
                        'current round (a task that already ran this round is deferred to the next)', floor=3)
     ctx.rule('R-C06e', 'the running-batch pointer (address of a local) is cleared on every exit of the runner', floor=1)
+    ctx.rule('R-C06f', 'the zero deadline reaches the kernel wait: the poll gets the caller\'s deadline unless a kernel timer is armed for a '
+                       'deadline that is not later (shared with C04 R-C04f)', floor=3)
+    ctx.section(lambda c: __import__('ivy.rules.c04', fromlist=['x']).keep_armed(c, 'R-C06f'))
     ctx.section(runner)
     ctx.section(zero_timeout)
     ctx.section(register)
